@@ -22,6 +22,10 @@ TRUSTED = ["subprocess isolation (one interpreter per hash seed)"]
 WORKER = os.path.join(os.path.dirname(os.path.dirname(os.path.abspath(__file__))), "c12_worker.py")
 
 
+PROGRAMS = [f"{g}_{u}" for u in ("r_lit", "r_num", "c_pre", "ext", "cell") for g in ("G", "Series", "Wrapper")] + \
+    [f"{g}_{u}" for u in ("mos_n", "mos_p") for g in ("MosStack", "Series")] + ["tops_list", "tops_list_rev"]
+
+
 def corpus():
     lf = lambda n, w: {"n": n, "w": w, "port": False, "dir": "none", "src": None, "dest": None, "kind": "plain"}
     bdef = {"name": "B", "tree": {"sigs": [lf("x", 1), lf("y", 1)], "subs": []}}
@@ -37,13 +41,14 @@ def corpus():
 def run(ctx):
     rep, rng = ctx.rep, ctx.rng
     rep.extra["rule"] = (
-        "generated designs in 3 styles + corpus (one bundle feeding four ports of an instance); N interpreters with PYTHONHASHSEED = "
+        "generated designs in 3 styles (top alone, and all modules as a list of tops) + corpus (one bundle feeding four ports of an instance) "
+        "+ generator programs (non-scalar parameter classes over primitive / external / module units, Series, MosStack, Wrapper, lists of tops); N interpreters with PYTHONHASHSEED = "
         "1..N (N=8 quick, 48 thorough) and random unrelated allocation/elaboration; digests of package bytes and spice/spectre/verilog "
         "text compared across all N; distinct = distinct design JSON; non-trivial = exports in all interpreters"
     )
     n = 60 if ctx.quick else 400
     nseeds = 8 if ctx.quick else 48
-    cases = corpus() + designs.gen_cases(rng, n)
+    cases = corpus() + designs.gen_cases(rng, n) + [{"program": name} for name in PROGRAMS]
     with tempfile.TemporaryDirectory(prefix="c12_") as td:
         f = os.path.join(td, "cases.json")
         json.dump(cases, open(f, "w"))
@@ -60,7 +65,7 @@ def run(ctx):
     differing = 0
     for k, c in enumerate(cases):
         results = [o[k] for o in outs]
-        rep.count("designs", json.dumps(c["design"]), nontrivial=all("pkg" in r for r in results), n=1)
+        rep.count("designs", json.dumps(c.get("design") or c["program"]), nontrivial=all("pkg" in r for r in results), n=1)
         if any(r != results[0] for r in results):
             differing += 1
             kinds = sorted({key for r in results for key in r if any(r2.get(key) != results[0].get(key) for r2 in results)})
@@ -68,6 +73,7 @@ def run(ctx):
                      "digests": [r.get("pkg") or r.get("error") for r in results]})
     rep.extra["interpreters"] = nseeds
     rep.extra["differing"] = differing
+    rep.extra["programs"] = {name: outs[0][len(cases) - len(PROGRAMS) + k] for k, name in enumerate(PROGRAMS)}
     rep.sample({"design_modules": [m["name"] for m in cases[0]["design"]["modules"]], "digests": [o[0] for o in outs][:3]})
 
 
